@@ -5,7 +5,7 @@ name="$(basename "$(dirname "$patch")")-$id-$$"
 wt="/tmp/mt/$name"
 mkdir -p /tmp/mt /tmp/mt-ev/$name
 git -C /repo worktree add -q --detach "$wt" HEAD || exit 3
-if ! git -C "$wt" apply "$patch"; then echo "PATCH DOES NOT APPLY: $patch"; git -C /repo worktree remove --force "$wt"; exit 3; fi
+if ! git -C "$wt" apply "$patch" 2>/dev/null && ! git -C "$wt" apply --3way "$patch" 2>/dev/null; then echo "PATCH DOES NOT APPLY: $patch"; git -C /repo worktree remove --force "$wt"; exit 3; fi
 cd /verif
 REPLICAT_SRC="$wt" VERIF_EVIDENCE_DIR="/tmp/mt-ev/$name" timeout ${MUT_TIMEOUT:-1800} ./check "$id" --tier "$tier" > "/tmp/mt-ev/$name/out.txt" 2>&1
 rc=$?
